@@ -56,13 +56,14 @@ def run_config(cfg):
     ob = dis = 0
     max_steps = nutt * 6 + 2
 
-    def fresh_run(manifest, files, seed, crash_at=None):
+    def fresh_run(manifest, files, seed, crash_at=None, fault=None):
         env.saved, env.printed, env.seeds, env.reads = [], [], [], []
         env.files = dict(files)
         env.rng.state = z3.Const('unseeded', cl.RNGS)
         counter = [0]
         finished = []      # utterances whose loop iteration completed (line printed and whatever follows it in the loop)
         last_printed = [None]
+        faulted = []
 
         def step(name, arg):
             if name == 'load' and last_printed[0] is not None:
@@ -72,6 +73,12 @@ def run_config(cfg):
                 last_printed[0] = arg
             counter[0] += 1
             if crash_at is not None and decide(_z(crash_at) == counter[0]):
+                if fault == 'oserror':
+                    # an ordinary failure of the write (disk full) instead of a kill: only at the steps inside torch.save
+                    if name in ('save-begin', 'save-mid'):
+                        faulted.append(arg)
+                        raise OSError(28, 'No space left on device')
+                    return
                 raise Killed()
         opts = make_options(env, seed, SInt(z3.IntVal(-1)), manifest)
         # manifest.flush participates in the step counter
@@ -89,8 +96,14 @@ def run_config(cfg):
         except Killed:
             killed = True
             rc = None
+        except OSError:
+            if not faulted:
+                raise
+            killed = True        # the failure propagated: the run ends like a soft interruption (files closed normally)
+            rc = None
         if not killed and last_printed[0] is not None:
             finished.append(last_printed[0])
+        env.faulted = list(faulted)
         return rc, killed, finished, counter[0]
 
     def body():
@@ -100,6 +113,7 @@ def run_config(cfg):
         hard = z3.Bool('hard_kill')
         c.assume(sd >= 0, crash >= 0, crash <= max_steps, z3.Int('nsamples') >= 1)
         is_hard = decide(hard)
+        is_fault = (not is_hard) and decide(z3.Bool('write_fails'))      # soft variant: torch.save raises OSError instead of the process being interrupted
         # uninterrupted reference run
         mref = Manifest([])
         rc, _, _, total = fresh_run(mref, {}, SInt(sd))
@@ -109,11 +123,11 @@ def run_config(cfg):
         # interrupted run
         m1 = Manifest([])
         try:
-            rc1, killed, finished, steps = fresh_run(m1, {}, SInt(sd), crash_at=SInt(crash))
+            rc1, killed, finished, steps = fresh_run(m1, {}, SInt(sd), crash_at=SInt(crash), fault='oserror' if is_fault else None)
         except Exception as e:
             symex.guard(e)
             return ('exception', '%s: %s' % (type(e).__name__, e))
-        if not killed:
+        if not killed and not (is_fault and env.faulted):
             return ('ok-nocrash',)
         files1 = dict(env.files)
         durable = list(m1.lines) if is_hard else list(m1.lines) + [l for l in ''.join(m1.buffer).split('\n') if l]
@@ -168,6 +182,7 @@ def run_config(cfg):
         m = ctx.model()
         viol.append(dict(kind='crash', nutt=nutt, npre=npre, comp=comp, npost=npost, what=res[0], detail=str(res[1:])[:300],
                          crash_at=m.eval(z3.Int('crash_at'), True).as_long(), hard=z3.is_true(m.eval(z3.Bool('hard_kill'), True)),
+                         write_fails=z3.is_true(m.eval(z3.Bool('write_fails'), True)),
                          seed=m.eval(z3.Int('seed'), True).as_long(),
                          **{'class': 'crash/%s/%s' % (res[0].split(':')[0], 'pre' if npre else 'nopre')}))
     return dict(obligations=ob, discharged=dis, violations=viol,
@@ -220,6 +235,9 @@ def replay(w):
             if count[0] == k:
                 with open(path, 'wb') as f:
                     f.write(b'partial')
+                if w.get('write_fails'):
+                    count[0] += 1
+                    raise OSError(28, 'No space left on device')       # the write itself fails (disk full); no kill
                 raise Kill()
             count[0] += 1
             r_ = real_save(obj, path, *a, **kw)
@@ -239,6 +257,9 @@ def replay(w):
                 command_line.signals_to_torch_feat_dir(args(out, man))
             except Kill:
                 pass
+            except OSError:
+                if not w.get('write_fails'):
+                    raise
         finally:
             torch.save = real_save
             command_line._signals_to_torch_feat_dir_parse_args = parse
@@ -264,7 +285,7 @@ def replay(w):
             try:
                 torch.load(os.path.join(out, u + '.pt'))
             except Exception as e:
-                return {'reproduced': True, 'detail': 'listed utterance %s has no loadable file: %s' % (u, e)}
+                return {'reproduced': True, 'detail': 'after %s the manifest lists %s, whose file cannot be loaded (%s)' % ('a failed write (OSError from torch.save)' if w.get('write_fails') else ('a hard kill' if w.get('hard', True) else 'a soft interruption'), u, type(e).__name__)}
         command_line.signals_to_torch_feat_dir(args(out, man))
         for u in range(nutt):
             a = torch.load(os.path.join(out, uid(u, nutt) + '.pt'))
